@@ -62,6 +62,26 @@ Example C14_nonvacuous :
   NoDup [3; 5] /\ In 5 [3; 5].
 Proof. split; [reflexivity|]. split; [repeat constructor; simpl; intuition lia | simpl; auto]. Qed.
 
+(* ---- app stage: the executable judgement of coq/Check is sound for the model on every scenario of the profile, and transfers
+   to every trace that agrees with the model's run ---- *)
+From BEI Require Check.C14c Check.C05c Proofs.JudgeC14P.
+Theorem C14_app_judgement_sound : forall sc, JudgeC14P.profile_C14b sc = true -> C14c.ok (sc, App.trace (App.run sc)) = 0%Z.
+Proof. exact JudgeC14P.C14_app_judgement_sound. Qed.
+
+Theorem C14_app_judgement_transfer : forall sc t, JudgeC14P.profile_C14b sc = true -> App.agree_full (sc, t) = true -> C14c.ok (sc, t) = 0%Z.
+Proof. exact JudgeC14P.C14_app_judgement_transfer. Qed.
+
+Theorem C14_app_judgement_sound_consuming : forall sc, JudgeC14P.profile_C14_upto5b sc = true -> (C14c.consuming_profile sc = true -> C05c.ok5 (sc, App.trace (App.run sc)) = 0%Z) -> C14c.ok (sc, App.trace (App.run sc)) = 0%Z.
+Proof. exact JudgeC14P.C14_app_judgement_sound_mod_C05. Qed.
+
+
+(* ---- app stage: the executable judgement of coq/Check is sound for the model on every scenario of the profile, and transfers
+   to every trace that agrees with the model's run ---- *)
+From BEI Require Proofs.JudgeProfiles.
+Theorem C14_app_judgement_sound_all : forall sc, JudgeProfiles.prof_C14 sc = true -> C14c.ok (sc, App.trace (App.run sc)) = 0%Z.
+Proof. exact JudgeProfiles.C14_sound_all. Qed.
+
+
 Print Assumptions C14_each_holder_once.
 Print Assumptions C14_identical_payload.
 Print Assumptions C14_recipients.
@@ -122,3 +142,7 @@ Proof.
   subst s2. apply map_ext. intros k. rewrite Hd. destruct k; reflexivity.
 Qed.
 Print Assumptions C14_world_shared_identical.
+Print Assumptions C14_app_judgement_sound.
+Print Assumptions C14_app_judgement_transfer.
+Print Assumptions C14_app_judgement_sound_consuming.
+Print Assumptions C14_app_judgement_sound_all.
